@@ -85,7 +85,7 @@ func asInt(d any) (int64, error) {
 		var i int64
 		intType := reflect.TypeOf(i)
 		dValue := reflect.ValueOf(d)
-		if !dValue.CanConvert(intType) {
+		if !dValue.IsValid() || !dValue.CanConvert(intType) {
 			return 0, &ConstraintError{
 				Message: fmt.Sprintf("%T is not a valid data type for an int schema.", d),
 			}
